@@ -550,10 +550,16 @@ theorem sciChars_fieldChar (d : Nat) (s : Sci) (he : s.e10.natAbs < 1000) : ∀ 
 
 theorem fmtE_fieldChar (d b : Nat) : ∀ c ∈ fmtE d b, FieldChar c := by
   intro c hc
-  unfold fmtE padLeft at hc
-  rcases List.mem_append.1 hc with h | h
-  · exact Or.inl (List.eq_of_mem_replicate h)
-  · exact sciChars_fieldChar d _ (sci_e10_bound d b) c h
+  unfold fmtE at hc
+  split at hc
+  · unfold padLeft at hc
+    rcases List.mem_append.1 hc with h | h
+    · exact Or.inl (List.eq_of_mem_replicate h)
+    · exact sciChars_fieldChar (d - 1) _ (sci_e10_bound (d - 1) b) c h
+  · unfold fmtE0 padLeft at hc
+    rcases List.mem_append.1 hc with h | h
+    · exact Or.inl (List.eq_of_mem_replicate h)
+    · exact sciChars_fieldChar d _ (sci_e10_bound d b) c h
 
 /-! ### value lines -/
 
